@@ -465,8 +465,14 @@ def gen_doc(rng):
             _pad_to(rng, parts, case, rng.randint(940, 1023))
         elif zone < 0.9:
             _pad_to(rng, parts, case, rng.randint(1100, 3000))
-        else:
+        elif zone < 0.98 or di > 0:
             _pad_to(rng, parts, case, rng.randint(10200, 10400))
+        else:
+            # far into a big document: whatever is kept for the rewind of a restart (replay buffer, decoder state, position
+            # bookkeeping) has grown past 2^16, 2^17 or 2^18 bytes by then
+            far = rng.random()
+            _pad_to(rng, parts, case, rng.randint(66000, 90000) if far < 0.7 else (rng.randint(131500, 140000) if far < 0.9
+                                                                                   else rng.randint(262500, 270000)))
         form = rng.choice(list(FORMS)) if rng.random() < 0.8 else rng.choice(["charset", "pragma"])
         place = rng.choice(["plain", "plain", "plain", "body", "comment", "title", "script", "style", "attr"])
         if rng.random() < 0.35:
